@@ -131,7 +131,7 @@ def count_ (args : List String) : String :=
   match args with
   | [f] =>
     let f := decode f
-    match parseFormat f, parseChars (unescape f.toList) with
+    match fieldHeads f.toList, fieldHeads (unescape f.toList) with
     | some fs, some fs' =>
       toString (countPositional fs) ++ " " ++ ",".intercalate ((namedNames fs).map enc) ++ " | " ++
         toString (countPositional fs') ++ " " ++ ",".intercalate ((namedNames fs').map enc)
